@@ -431,7 +431,9 @@ func (r *c18Recorder) log(ev string) {
 }
 
 // c18Record runs g goroutines with nops operations each on one real pool and returns the log.
-func c18Record(format string, g, nops, gcBudget int, rng *rand.Rand) []string {
+// churn: the goroutines mostly acquire and hand back the name they acquired last (the newest ids), few other
+// operations and no yields: many releases of the newest id race with Acquires that find the pool empty.
+func c18Record(format string, g, nops, gcBudget int, churn bool, rng *rand.Rand) []string {
 	p := namepool.Pool(format)
 	rec := &c18Recorder{}
 	xfer := make(chan c18Item, 8)
@@ -466,12 +468,38 @@ func c18Record(format string, g, nops, gcBudget int, rng *rand.Rand) []string {
 			<-start
 			for i := 0; i < nops; i++ {
 				r := lr.Intn(100)
+				if churn {
+					// 0..37 acquire, 38..61 release (the newest), 78..80 GC; the rest is remapped
+					switch {
+					case r < 50:
+						r = 0
+					case r < 94:
+						r = 50
+						if len(live) > 0 {
+							live[lr.Intn(len(live))], live[len(live)-1] = live[len(live)-1], live[lr.Intn(len(live))]
+							if lr.Intn(4) != 0 { // mostly the most recently acquired one
+								newest := 0
+								for j := range live {
+									if live[j].h > live[newest].h {
+										newest = j
+									}
+								}
+								live[newest], live[len(live)-1] = live[len(live)-1], live[newest]
+							}
+						}
+					default:
+						r = 79
+					}
+				}
 				switch {
 				case r < 38 || (len(live) == 0 && r < 62):
 					n := p.Acquire()
 					live = append(live, c18Item{n, rec.acq(n)})
 				case r < 62:
 					k := lr.Intn(len(live))
+					if churn {
+						k = len(live) - 1
+					}
 					it := live[k]
 					live = append(live[:k], live[k+1:]...)
 					release(lr, it)
@@ -508,7 +536,7 @@ func c18Record(format string, g, nops, gcBudget int, rng *rand.Rand) []string {
 					default:
 					}
 				}
-				if lr.Intn(3) == 0 {
+				if !churn && lr.Intn(3) == 0 {
 					runtime.Gosched()
 				}
 			}
@@ -682,13 +710,24 @@ func c18GenHistories(n, maxG, maxEvents, negEvery int, rng *rand.Rand, emit func
 			nops = 1
 		}
 		format := c18RandomFormat(rng)
-		evs := c18Record(format, g, nops, rng.Intn(4), rng)
-		if len(evs) > maxEvents+200 {
-			evs = evs[:maxEvents+200] // a prefix of a history is a history
+		churn := k%3 == 2 && g >= 2
+		gcb := rng.Intn(4)
+		if churn {
+			gcb = 2 + rng.Intn(6)
+			nops *= 3
+		}
+		evs := c18Record(format, g, nops, gcb, churn, rng)
+		if lim := maxEvents + 200; len(evs) > lim && !churn {
+			evs = evs[:lim] // a prefix of a history is a history
+		} else if len(evs) > 3*lim {
+			evs = evs[:3*lim]
 		}
 		kind := "hist-g" + strconv.Itoa(g)
 		if g > 16 {
 			kind = "hist-g17+"
+		}
+		if churn {
+			kind = "hist-churn"
 		}
 		emit(Case{Line: c18HistLine("hist", format, evs), Kind: kind})
 		if negEvery > 0 && k%negEvery == 0 {
@@ -1021,7 +1060,7 @@ func init() {
 			}
 			return false
 		},
-		Rule:     "hist: g goroutines (quick 1..16, 400 histories of ≤ ~600 events, every count once; thorough 1..64, 5000 histories of ≤ ~2700 events, plus 1000 recorded by a child process built with -race) run random Acquire / Release (pool.Release or Name.Release) / repeated Release of a cleared Name / Release(nil) / runtime.GC() once or twice / hand-over of a live Name to another goroutine on one real namepool.Pool; formats %d, name_%d, a%db two times out of three, else %%-escapes, no verb, two verbs, empty, random bytes around %d; the log (≤ ~2700 events) is the case line, re-validated by the Go oracle (set of live ids, fmt.Sprintf) and by the Lean validator. neg: recorded histories corrupted in six ways (second holder of a live id, id 0, text of another id, Name object reused while live, non-empty Name() after Release, clear without release) that both validators must reject. api: sequential scripts over 4 *Name variables executed on the real pool (Acquire, pool.Release, Name.Release, Release(nil), zero Name, nil pointer, ID(), Name(), double GC). malformed: truncated / non-numeric / overflowing tokens, unsupported verbs. non-trivial = a history with ≥ 2 simultaneously live names and ≥ 1 recycled id, a rejected negative control, or a script in which a release cleared a Name.",
+		Rule:     "hist: g goroutines (quick 1..16, 400 histories of ≤ ~600 events, every count once; thorough 1..64, 5000 histories of ≤ ~2700 events, plus 1000 recorded by a child process built with -race) run random Acquire / Release (every third history in churn mode: mostly Acquire and Release of the most recently acquired name, no yields, three times as long) (pool.Release or Name.Release) / repeated Release of a cleared Name / Release(nil) / runtime.GC() once or twice / hand-over of a live Name to another goroutine on one real namepool.Pool; formats %d, name_%d, a%db two times out of three, else %%-escapes, no verb, two verbs, empty, random bytes around %d; the log (≤ ~2700 events) is the case line, re-validated by the Go oracle (set of live ids, fmt.Sprintf) and by the Lean validator. neg: recorded histories corrupted in six ways (second holder of a live id, id 0, text of another id, Name object reused while live, non-empty Name() after Release, clear without release) that both validators must reject. api: sequential scripts over 4 *Name variables executed on the real pool (Acquire, pool.Release, Name.Release, Release(nil), zero Name, nil pointer, ID(), Name(), double GC). malformed: truncated / non-numeric / overflowing tokens, unsupported verbs. non-trivial = a history with ≥ 2 simultaneously live names and ≥ 1 recycled id, a rejected negative control, or a script in which a release cleared a Name.",
 		NoShrink: true,
 		Serial:   false,
 		Assumptions: []string{
